@@ -30,6 +30,13 @@ func suiteC02(c *ctx) {
 		}
 		cases = append(cases, rc)
 	}
+	for i := 0; i < c.n(36); i++ {
+		// output crossing the edge of the decoder's 64 KiB window inside packed multi-symbol
+		// entries, with the source pausing at every byte (or at random points)
+		rc := &RCase{Prop: "C02", ID: fmt.Sprintf("C02-e%d", i), API: "flate", Stream: StreamSpec{Kind: "synth", Synth: &SynthSpec{Seed: r.U64(), Blocks: 3, Size: i % 2, Kinds: "E"}}, Cut: -1,
+			Src: SrcSpec{Kind: "bufio", Buf: r.Pick([]int{16, 64, 4096}), Chunk: r.PickS([]string{"one", "one", "rand"}), Seed: r.U64(), Term: "eof"}, Ctor: "new", Reads: r.PickS([]string{"big", "k3", "rand"}), RSeed: r.U64()}
+		cases = append(cases, rc)
+	}
 	parallelJ(len(cases), func(i int) interface{} { return cases[i] }, func(i int) { checkC02(c.rep, c.pool, cases[i]) })
 }
 
@@ -109,6 +116,9 @@ func suiteC04(c *ctx) {
 	var cases []*RCase
 	for i := 0; i < c.n(110); i++ {
 		s := genValidStream(r, "flate")
+		if i%9 == 4 {
+			s = StreamSpec{Kind: "synth", Synth: &SynthSpec{Seed: r.U64(), Blocks: 3, Size: i % 2, Kinds: "E"}}
+		}
 		if s.Kind == "synth" && s.Synth.Blocks > 50 {
 			s.Synth.Blocks = 300
 		}
